@@ -29,6 +29,12 @@ CHECKS = {
  "C08": ("fault_enumeration", "runtime monitoring: fault-plan injection on the simulated disk + model oracle after every transaction + lock-state hook + reopen rule computed from the op log",
          "Each case injects one fault plan (kind x call index from a dry run x burst x mode) into a generated history; monitors: no panic, Commit==nil implies no failed write/sync in its window, read transactions keep seeing the last successful commit, locks idle, failed Open releases the path lock, fresh transactions commit once faults stop, reopen shows the last success or the attempt whose only failure was its final sync. Sampled (quick) to near-complete per short history (thorough) enumeration of call indices.",
          "DESIGN.md 4 (C08)", SIM + "; two genuine defects are recorded in known_findings.json (post-durable remap failure, recycled pages of a failed-final-sync attempt) and reported as KNOWN-FINDING"),
+ "C01": ("fault_enumeration", "runtime monitoring: offline crash-image recovery oracle over the recorded I/O log of the simulated disk (every I/O boundary x lost-write subsets x torn header cuts), images reopened through the real open path",
+         "For each generated history every I/O boundary of the recorded op log is crashed: durable prefix + subsets of the writes pending since the last successful sync (complete powerset for small n, structured + PRNG subsets beyond), header writes torn at byte cuts; every image is opened by the real code and must recover to the last successful commit or the commit in progress, byte-exact against the recorded model state, with a sane allocator and working follow-up transactions.",
+         "DESIGN.md 4 (C01)", SIM),
+ "C16": ("fault_enumeration", "runtime monitoring: complete bit-flip / tear / garbage sweeps of both header slots of real images, reopened through the real open path, judged by an independent header validator",
+         "Images taken at commit boundaries of generated histories; for both slots all 672 single-bit flips, all 83 prefix tears, zero/garbage/random damage, slot copies, both slots damaged and txid wrap-around pairs are opened by the real code; the harness' own header validation decides the required winner; contents must equal the recorded state of that txid; no panic.",
+         "DESIGN.md 4 (C16)", SIM),
  "C03": ("exploration", "runtime monitoring: model-based differential execution on a simulated disk with controlled writer stalls (+race detector slice)",
          "Real txfile code is driven by PRNG-generated transaction programs on a simulated disk; a sequential page model is compared in a read transaction after every transaction end, on every in-transaction read and after reopen, while a gate stalls the background writer so that several transactions' page writes share one writer batch. Held-on-explored-executions assurance; right level because the property quantifies over histories and writer timings that cannot be enumerated.",
          "DESIGN.md 4 (C03)", SIM),
